@@ -120,6 +120,16 @@ Eval(n, env, self, C) ==
         LET p == NxtFrom(env, C.st.raw) IN
         IF IsEOF(env, p) \/ env.toks[p].t # "Ident" THEN R("no", C.st, <<>>, FALSE, C.pend, C.log, C.nid)
         ELSE R("ok", [raw |-> p + 1, cur |-> C.st.cur + 1, fc |-> C.st.fc], <<[user2 |-> env.toks[p].v]>>, TRUE, C.pend, C.log, C.nid)
+    [] n.op = "user3" ->
+        \* user code that takes one token, demands "!" as the next one (which it takes as well) and otherwise FAILS - with an
+        \* error that wraps the "no match" sentinel, after having consumed the first token.  Only the sentinel itself means
+        \* "no match": this is a failing node that has advanced by one token.
+        LET p == NxtFrom(env, C.st.raw) IN
+        IF IsEOF(env, p) THEN R("no", C.st, <<>>, FALSE, C.pend, C.log, C.nid)
+        ELSE LET q == NxtFrom(env, p + 1) IN
+             IF ~IsEOF(env, q) /\ env.toks[q].v = "!"
+             THEN R("ok", [raw |-> q + 1, cur |-> C.st.cur + 2, fc |-> C.st.fc], <<[user3 |-> env.toks[p].v]>>, TRUE, C.pend, C.log, C.nid)
+             ELSE R("err", [raw |-> p + 1, cur |-> C.st.cur + 1, fc |-> C.st.fc], <<>>, FALSE, C.pend, C.log, C.nid)
     [] n.op = "seq" -> EvalSeq(n.kids, 1, env, self, C, <<>>, FALSE)
     [] n.op = "alt" -> EvalAlt(n.kids, 1, env, self, C, [saw |-> FALSE, deep |-> 0, vals |-> <<>>, nn |-> FALSE])
     [] n.op = "union" ->
@@ -252,7 +262,8 @@ CanonField(env, log, id, p, fld) ==
       kind == fld.kind
       nodeStr(v) == IF "node" \in DOMAIN v THEN CanonInst(env, log, v.node)
                     ELSE IF "user" \in DOMAIN v THEN "PWord{W=" \o Q(v.user) \o "}"
-                    ELSE IF "user2" \in DOMAIN v THEN "PIdent{W=" \o Q(v.user2) \o "}" ELSE "?"
+                    ELSE IF "user2" \in DOMAIN v THEN "PIdent{W=" \o Q(v.user2) \o "}"
+                    ELSE IF "user3" \in DOMAIN v THEN "PPair{W=" \o Q(v.user3) \o "}" ELSE "?"
   IN CASE kind = "string" -> Q(JoinSeq([i \in 1..Len(ws) |-> JoinStr(ws[i].vals, 1)], 1, ""))
        \* *string: allocated by the first capture that is applied (even an empty one), nil otherwise
        [] kind = "pstring" -> IF Len(ws) = 0 THEN "nil" ELSE Q(JoinSeq([i \in 1..Len(ws) |-> JoinStr(ws[i].vals, 1)], 1, ""))
@@ -273,11 +284,11 @@ CanonField(env, log, id, p, fld) ==
        [] OTHER ->
             \* "cnode(s)": a field of an interface type whose production is user code registered with ParseTypeWith (it takes one
             \* token, like the Parseable child "unode")
-            LET single == kind = "node" \/ kind = "union" \/ kind = "unode" \/ kind = "cnode" \/ kind = "unode2" IN
+            LET single == kind = "node" \/ kind = "union" \/ kind = "unode" \/ kind = "cnode" \/ kind = "unode2" \/ kind = "unode3" IN
             IF single
             THEN LET nz == SelectSeq(ws, LAMBDA w : Len(w.vals) > 0) IN
                  IF Len(ws) = 0 THEN "nil"
-                 ELSE IF Len(nz) = 0 THEN (IF kind \in {"node", "unode", "unode2"} THEN "ZERO" ELSE "nil")
+                 ELSE IF Len(nz) = 0 THEN (IF kind \in {"node", "unode", "unode2", "unode3"} THEN "ZERO" ELSE "nil")
                  ELSE nodeStr(nz[Len(nz)].vals[1])
             ELSE LET fv == FlatVals(ws, 1) IN "[" \o JoinSeq([j \in 1..Len(fv) |-> nodeStr(fv[j])], 1, ",") \o "]"
 
